@@ -88,7 +88,7 @@ SIM_CONSTS = {"RN1": _set(["lc", "uc", "empty"]), "RN2": _set(["lc", "dup"]),
               "WN1": _set(["lc", "uc", "naK", "bad8"]), "WN2": _set(["naK"]),
               "WV1": _set(["v", "long"]), "WV2": _set(["m"]),
               "WARMK": _set(["syn", "reply", "headers"]), "WARMN": _set(["lc", "uc", "naK", "na8"]),
-              "WARMV": _set(["v", "long", "m"])}
+              "WARMV": _set(["v", "long", "m"]), "REJK": _set(["syn", "reply", "headers"])}
 
 
 def _frame_sig_case(c):
@@ -178,7 +178,7 @@ def check_c39(ctx):
     ctx.tlc_must_pass(SPEC, "Frame", "MC_Frame.cfg", defines=fc, timeout=1500)
     rnd = random.Random(ctx.seed * 104729 + 39)
     warm = {"MAXWARM": 0 if q else 1, "WARMK": _set(["syn"]), "WARMN": _set(["naK"]),
-            "WARMV": _set(["v", "long"])}
+            "WARMV": _set(["v", "long"]), "REJK": _set([])}
     g1 = dict(fc, **warm)
     ctx.cov["constants"]["Gen_Frame_exhaustive"] = g1
     cases = gen_frames(ctx, g1, timeout=2400)
@@ -190,10 +190,13 @@ def check_c39(ctx):
         for c in list(cases):
             if rnd.random() < 0.2:
                 cases.append({"seq": c["seq"], "var": rnd.randint(1, 1 << 30)})
-    # sequences: every prefix of <= 1 (quick) / <= 2 (thorough) frames out of {one written SYN_REPLY,
+    # sequences: every prefix of <= 1 frame (longer mixed prefixes: simulation) out of {one written SYN_REPLY,
     # the 8 frame structs the writer must refuse} before every final shape of a reduced class set:
     # a refused write must leave no trace on the frames that follow
-    g1r = dict(SIM_CONSTS, MAXWARM=1 if q else 2, WARMK=_set(["reply"]), WARMN=_set(["naK"]), WARMV=_set(["v"]))
+    # ... and the frames the reader must reject with a stream error (illegal name, block intact):
+    # the connection goes on, their block must have been consumed whole
+    g1r = dict(SIM_CONSTS, MAXWARM=1, WARMK=_set(["reply"]), WARMN=_set(["naK"]), WARMV=_set(["v"]),
+               REJK=_set(["reply"] if q else ["syn", "reply", "headers"]))
     ctx.cov["constants"]["Gen_Frame_exhaustive_refused_prefixes"] = g1r
     seqs = gen_frames(ctx, g1r, timeout=2400)
     for c in seqs:
